@@ -601,8 +601,9 @@ pub fn run(mut ctx: Ctx) -> ! {
             "crash_histories",
             "histories of 1-10 steps (publish, await processed, prune with/without body, import of 1-3 operations of 2 foreign authors incl. body-less ones, recv, explicit ack, pause) on a file-backed node in a child process, Explicit or Automatic policy, abort() after a generated step (or clean drop); parent re-opens and compares the replay with cursor and store; non-trivial = a stored un-acknowledged operation with a body exists at restart",
             96,
-            // (each restarted node leaves its pipeline thread's descriptors open, see C04)
-            3_000,
+            // Every node restarted in this (parent) process leaves descriptors open (pipeline thread,
+            // actor threads that never terminate): the case count is bounded by RLIMIT_NOFILE.
+            1_200,
         )
         .workers(8, 16)
         .min_nontrivial(0.2),
